@@ -274,3 +274,13 @@ void x_cvc_set(btok_cvc_t* c, unsigned field, const octet* in, size_t n)
 	}
 	memcpy(p, in, n);
 }
+
+/* ---- call a one-word function with its argument loaded from memory (so that memcheck definedness travels with it) */
+typedef size_t (*x_fw)(word);
+size_t x_call_w(x_fw f, const word* p) { return f(*p); }
+typedef size_t (*x_f32)(u32);
+size_t x_call_u32(x_f32 f, const u32* p) { return f(*p); }
+typedef size_t (*x_f16)(u16);
+size_t x_call_u16(x_f16 f, const u16* p) { return f(*p); }
+typedef size_t (*x_f64)(u64);
+size_t x_call_u64(x_f64 f, const u64* p) { return f(*p); }
